@@ -100,11 +100,95 @@ def _transfer(fn, bb, env, atom):
     return env
 
 
+
+# ---- variants of enum-valued locals (Option / small enums) travelling through moves, payload projections and aggregates --------------
+def _nested_variant(fn, pl, env, valuation):
+    """Nested variant names of the value at place pl, e.g. ("Some", "Real"), as far as known: from the valuation of expressions
+    (`valuation(expr) -> tuple | None`) or from what was recorded for the base local."""
+    if valuation is not None:
+        v = valuation(df.place_expr(fn, pl))
+        if v:
+            return tuple(v)
+    base = env.get(("V", pl["l"]))
+    if not base:
+        return None
+    cur = tuple(base)
+    for p_ in pl.get("p", []):
+        if p_ == "deref":
+            continue
+        if isinstance(p_, dict) and "downcast" in p_:
+            if not cur or cur[0] != p_["downcast"]:
+                return None
+            continue
+        if isinstance(p_, dict) and "f" in p_:
+            if p_["f"] != 0:
+                return None
+            cur = cur[1:]
+            continue
+        return None
+    return cur or None
+
+
+def _transfer_variants(fn, bb, env, valuation, prog=None):
+    for s in fn.blocks[bb]["stmts"]:
+        if s["k"] != "assign" or "p" in s["lhs"]:
+            continue
+        l = s["lhs"]["l"]
+        rv = s["rv"]
+        v = None
+        if rv["k"] == "use" and rv["op"].get("k") in ("copy", "move"):
+            v = _nested_variant(fn, rv["op"]["pl"], env, valuation)
+        elif rv["k"] == "ref":
+            v = _nested_variant(fn, rv["pl"], env, valuation)
+        elif rv["k"] == "agg" and rv.get("variant"):
+            v = (rv["variant"],)
+            if len(rv.get("ops", [])) == 1 and rv["ops"][0].get("k") in ("copy", "move"):
+                inner = _nested_variant(fn, rv["ops"][0]["pl"], env, valuation)
+                if inner:
+                    v = v + tuple(inner)
+        if v:
+            env[("V", l)] = tuple(v)
+        else:
+            env.pop(("V", l), None)
+    t = fn.blocks[bb]["term"]
+    if t["k"] == "call" and "p" not in t["dest"]:
+        from .facts import callee_of
+        p = callee_of(t).get("path") or ""
+        d = t["dest"]["l"]
+        env.pop(("V", d), None)
+        a0 = t["args"][0] if t["args"] else None
+        v0 = _nested_variant(fn, a0["pl"], env, valuation) if a0 is not None and a0.get("k") in ("copy", "move") else None
+        if v0 and p.startswith("core::option::Option::<T>::"):
+            last = p.split("::")[-1]
+            if last == "is_some":
+                env[d] = (v0[0] == "Some")
+            elif last == "is_none":
+                env[d] = (v0[0] == "None")
+            elif last in ("and_then", "map", "as_ref", "as_mut", "filter", "take", "cloned", "copied", "as_deref") and v0[0] == "None":
+                env[("V", d)] = ("None",)
+            elif last in ("map", "as_ref", "as_mut", "cloned", "copied", "as_deref") and v0[0] == "Some":
+                env[("V", d)] = ("Some",) + (tuple(v0[1:]) if last in ("as_ref", "as_mut", "cloned", "copied") else ())
+            elif last == "and_then" and v0[0] == "Some" and prog is not None and len(t["args"]) == 2 and t["args"][1].get("k") == "const":
+                # Some(x).and_then(f) = f(x): which variants f can return for a payload of that variant
+                rp = (t["args"][1].get("res") or {}).get("rpath") or t["args"][1].get("fn")
+                callee = prog.fns.get(rp)
+                if callee is not None and callee.arg_count == 1:
+                    inner = tuple(v0[1:])
+
+                    def val2(e, inner=inner):
+                        return inner if (isinstance(e, tuple) and e[:2] == ("param", 1)) else None
+                    envs2 = reach_under(callee, lambda e: None, None, return_envs=True, valuation=val2, prog=prog)
+                    rets = {envs2[b_].get(("V", 0)) for b_ in envs2 if callee.blocks[b_]["term"]["k"] == "return"}
+                    if len(rets) == 1 and None not in rets:
+                        env[("V", d)] = tuple(rets.pop())
+    return env
+
+
 def _join(a, b):
     return {k: v for k, v in a.items() if b.get(k) == v}
 
 
-def reach_under(fn, atom, variant=None, disabled=(), blocked=(), per_iteration=False):
+def reach_under(fn, atom, variant=None, disabled=(), blocked=(), per_iteration=False, return_envs=False, valuation=None, prog=None):
     """Set of blocks reachable from the entry under the assumptions (never entering a block in `blocked`).  With per_iteration the
     assumptions describe one iteration of a loop, earlier iterations being arbitrary: what is known about boolean locals is
     forgotten at every loop head."""
@@ -121,6 +205,8 @@ def reach_under(fn, atom, variant=None, disabled=(), blocked=(), per_iteration=F
         bb = work.pop()
         env_in = {} if bb in heads else envs[bb]
         env = _transfer(fn, bb, env_in, atom)
+        if valuation is not None:
+            env = _transfer_variants(fn, bb, env, valuation, prog)
         t = fn.blocks[bb]["term"]
         succs = [s for s in fn.succs(bb) if (bb, s) not in disabled and not fn.blocks[s]["cleanup"] and s not in blocked]
         if t["k"] == "switch":
@@ -133,6 +219,9 @@ def reach_under(fn, atom, variant=None, disabled=(), blocked=(), per_iteration=F
             elif bb in dsw:
                 sw = dsw[bb]
                 var = variant(sw["expr"], sw.get("adt"))
+                if var is None and valuation is not None:
+                    nv = _nested_variant(fn, sw["place"], env, valuation)
+                    var = nv[0] if nv else None
                 if var is not None:
                     if var in sw["edges"]:
                         succs = [s for s in succs if s == sw["edges"][var][1]]
@@ -148,4 +237,12 @@ def reach_under(fn, atom, variant=None, disabled=(), blocked=(), per_iteration=F
                 if j != envs[s]:
                     envs[s] = j
                     work.append(s)
+    if return_envs:
+        out_ = {}
+        for bb, e_ in envs.items():
+            x = _transfer(fn, bb, ({} if bb in heads else e_), atom)
+            if valuation is not None:
+                x = _transfer_variants(fn, bb, x, valuation, prog)
+            out_[bb] = x
+        return out_
     return set(envs)
